@@ -16,10 +16,17 @@ def grab(pat, default=None):
 checks = {}
 for mm in re.finditer(r"check_(C\d+) exit=(\d+) (\d+) violation lines; ?(.*)", res):
     checks[mm.group(1)] = {"exit": int(mm.group(2)), "violation_lines": int(mm.group(3)), "first": mm.group(4).strip()}
+    try:
+        log = open(f"/tmp/mut/results/{pid}-{m}.check_{mm.group(1)}.log").read()
+        names = [os.path.basename(x) for x in re.findall(r"^VIOLATION property=\S+ replay=(\S+)", log, re.M)]
+        checks[mm.group(1)]["violations"] = [re.sub(r"-[0-9a-f]{10}\.json$", "", n) for n in names]
+        checks[mm.group(1)]["by"] = sorted({"bounded stand-in" if re.match(r"C\d\d_", n) else "proof obligation" for n in names})
+    except OSError:
+        pass
 extra = json.loads(sys.argv[5]) if len(sys.argv) > 5 else {}
 meta = {
     "id": f"{pid}-{m}",
-    "property": pid,
+    "property": pid[:3],
     "breaks": breaks,
     "needs_to_manifest": needs,
     "files": sorted(set(re.findall(r"^\+\+\+ b/(\S+)", open(os.path.join(dst, "patch.diff")).read(), re.M))),
